@@ -3,15 +3,15 @@
 import json, subprocess
 
 CHECKS = {
- "C04": ("model_checking", "2.3, 5/C04", "stateless model checking of the instrumented implementation: DPOR + sleep sets over every schedule of 30+ workflow scenarios (delay bound 2 where not closed) + forced map-iteration orders; oracle = reference evaluation of the workflow spec (executed-task multiset, files, contents) and a single terminal outcome per scenario",
+ "C04": ("model_checking", "2.3, 5/C04", "stateless model checking of the instrumented implementation: DPOR + sleep sets over every schedule of 30+ workflow scenarios (delay bound 2 where not closed) + forced map-iteration orders; oracle = reference evaluation of the workflow spec (executed-task multiset, files, contents) and a single terminal outcome per scenario; partial runs (RunTo) through parameter connections; a memory-level pass on the race-instrumented build (map operations and mutable fields are scheduling points too)",
          "Exhaustive over schedules inside the listed scenario bounds (graphs G2-G9/G12/G14, <= 3 items, buffers 1-2, <= 3 slots); says nothing beyond those bounds."),
- "C05": ("model_checking", "2.3, 5/C05", "stateless model checking (DPOR + sleep sets) with start/end/return events mutually dependent: at the state in which the main thread returns from Run/RunTo every started task has ended, every reference output is final, no temp dir/FIFO exists; deadlock = no enabled thread",
+ "C05": ("model_checking", "2.3, 5/C05", "stateless model checking (DPOR + sleep sets) with start/end/return events mutually dependent: at the state in which the main thread returns from Run/RunTo every started task has ended, every reference output is final, no temp dir/FIFO exists; deadlock = no enabled thread; environment deviations: a single injected I/O error at every file-system operation, forced range-over-map orders",
          "Exhaustive over schedules and event orders inside the scenario bounds; streaming excluded (C17)."),
- "C06": ("model_checking", "2.3, 5/C06", "stateless model checking (DPOR + sleep sets) of the slot protocol on the real Task.Execute / IncConcurrentTasks code: all multisets of CoresPerTask over k<=4 ready tasks, start/end events mutually dependent, invariant checked on every prefix of every event order",
+ "C06": ("model_checking", "2.3, 5/C06", "stateless model checking (DPOR + sleep sets) of the slot protocol on the real Task.Execute / IncConcurrentTasks code: all multisets of CoresPerTask over k<=4 ready tasks, start/end events mutually dependent, invariant checked on every prefix of every event order; Go functions, shell commands, prepended launchers, streaming pairs (live children of real bash), oversize and zero-core tasks; timers (time.After) are environment events that may land at any point, constructs outside the validated dependency table (blocking select with a send case) are decided by the unreduced enumeration",
          "Every overlap configuration of the tasks is a distinct trace and is visited; bounds: k<=4 tasks, max<=3."),
- "C07": ("model_checking", "2.3, 5/C07", "stateless model checking (DPOR + sleep sets): deadlock freedom of token-by-token acquisition for all cores multisets; work conservation as reachability made mandatory (barrier inside the task bodies deadlocks if the library serialises); oversize CoresPerTask rejected in every schedule",
+ "C07": ("model_checking", "2.3, 5/C07", "stateless model checking (DPOR + sleep sets): deadlock freedom of token-by-token acquisition for all cores multisets; work conservation as reachability made mandatory (barrier inside the task bodies deadlocks if the library serialises); oversize CoresPerTask (also with maxConcurrentTasks = 0) rejected in every schedule; an outside actor creating a queued task's output at every possible moment",
          "bounds: k<=4 tasks, max<=4."),
- "C08": ("model_checking", "2.3, 5/C08", "stateless model checking (DPOR + sleep sets): every completion order of parallel tasks is a schedule; a recorder process observes the out-port; sequence must equal the reference arrival order (per upstream through fan-in)",
+ "C08": ("model_checking", "2.3, 5/C08", "stateless model checking (DPOR + sleep sets): every completion order of parallel tasks is a schedule; a recorder process observes the out-port; sequence must equal the reference arrival order (per upstream through fan-in); multi-out-port tasks, two receivers, streaming out-ports, joined in-ports; environment deviations: a single injected I/O error at every file-system operation, a lagging file system (one look at an existing output answers ENOENT) under every schedule",
          "bounds: <= 3 items (4 in thorough), chains and fan-in."),
 }
 
@@ -28,7 +28,7 @@ CHECKS.update({
          "exhaustive inside the alphabet only; no sampling of long random values (outside the technique)."),
  "C16": ("model_checking", "5/C16", "every single edge left unconnected (refused before any start event, every schedule); dangling out-ports drained; EVERY non-empty subset of processes as RunTo targets by name / regex / value: started processes = reference upstream closure over file and parameter edges, exactly once, C05 return predicate; schedules by DPOR + sleep sets",
          "bounds: graphs G3-G8/G11 with 1-2 items."),
- "C18": ("model_checking", "5/C18", "src(k) -> StreamToSubStream -> {i:x|join:SEP}: k in 0..4 (beyond the buffer), 3 separators, 3 modifier settings, every Mazurkiewicz trace; exactly one task, argument string = members in emission order, members resolve from the temp dir, audit Upstream = members",
+ "C18": ("model_checking", "5/C18", "src(k) -> StreamToSubStream -> {i:x|join:SEP}: k in 0..4 (beyond the buffer), 3 separators, 3 modifier settings, every Mazurkiewicz trace; exactly one task, argument string = members in emission order, members resolve from the temp dir, audit Upstream = members; multi-character separators, absolute members, reverse name order, two joined in-ports under forced map orders",
          "documentation is silent on join + relocating modifier: only order and names are judged there."),
 })
 
@@ -37,13 +37,13 @@ CHECKS.update({
          "IDs / absolute times not compared; G14 (tagging on a fan-out arm) judged under C12."),
  "C11": ("fault_enumeration", "5/C11", "exhaustive history enumeration x schedule exploration: every RunTo prefix then Run; every distinct crash state + cleanup + resume; complete run then EVERY non-empty subset of task outputs deleted and re-run; lineage of every final output = reference lineage, untouched ancestors' records byte-identical, write->read->marshal identity",
          "bounds: graphs G3/G7/G8/G14a (+G6/G6b thorough), <= 2 items."),
- "C12": ("model_checking", "5/C12", "race-instrumented build (maps + struct fields assigned after construction are visible memory accesses) explored by DPOR + sleep sets / delay bounding; happens-before monitor from synchronisation edges only; unordered conflicting accesses in any explored execution = race (both functions reported)",
+ "C12": ("model_checking", "5/C12", "race-instrumented build (maps + struct fields assigned after construction are visible memory accesses) explored by DPOR + sleep sets / delay bounding; happens-before monitor from synchronisation edges only; unordered conflicting accesses in any explored execution = race (both functions reported); package-level variables, calls on thread-unsafe library values and json.Marshal of a record (a read of the maps it holds) are accesses too; sync.Once / RWMutex / sync/atomic are modelled from the validated mutex",
          "dynamic happens-before: a race is reported only if some explored execution leaves the two accesses unordered; slice elements and loop conditions are not instrumented."),
  "C13": ("exploration", "5/C13", "small-scope exhaustive enumeration of a path grammar (5 prefixes x <= 2 (3) directory segments x 10 segment shapes incl. placeholder look-alikes, inputs, extra files) - 21k (248k) one-task workflows executed with REAL bash; token must be at exactly the declared path and nowhere else, input resolved from inside the temp dir, extras at the same relative location",
          "single task: no interleaving to explore; kernel / bash observed, not scheduled."),
  "C15": ("exploration", "5/C15", "small-scope exhaustive enumeration of a pattern grammar (literals and {i:} {o:} {p:} {t:} placeholders with modifier chains of basename, dirname, %suffix, s/a/b/; single placeholders, all ordered pairs and triples; command patterns and SetOut patterns; missing-value cases; default output names under every map-iteration order and every single-component change) - 178k cases quick / 3.3M thorough - built through NewProc/SetOut/NewTask and compared with a reference written from the documentation",
          "the reference is silent where the documentation is (search string occurring twice, suffix equal to the whole value, dirname directly under /)."),
- "C17": ("model_checking", "5/C17", "real mkfifo + real bash producer/consumer under the controlled scheduler (async exec seam, exits observed only at quiescence, stuck children recognised from /proc/<pid>/stack); all schedules with <= 1 delay x payload sizes around the pipe buffer x slot counts; then the history run-again-in-place",
+ "C17": ("model_checking", "5/C17", "real mkfifo + real bash producer/consumer under the controlled scheduler (async exec seam, exits observed only at quiescence, stuck children recognised from /proc/<pid>/stack); all schedules with <= 1 delay x payload sizes around the pipe buffer x slot counts; then the history run-again-in-place (both orders of the out-IP map); stale files / leftover FIFOs at the paths, absolute and parent-stepping streaming paths, a consumer with a second in-port",
          "delay-bounded (k=1), not closed; the inside of the kernel pipe is not scheduled."),
  "C19": ("model_checking", "5/C19", "real components wired to recorder processes: combinators x port counts x stream lengths x every map-iteration variant x schedules (DPOR closed / delay bound 1); selector x ALL predicate patterns; splitter x line counts x limits x final newline; concatenator, sources, readers, globber against an independent matcher",
          "bounds: <= 3 (4) ports, lengths <= 2 (+ beyond buffer), <= 7 lines."),
